@@ -6,7 +6,7 @@ import ast
 
 from ..core import astutil as A
 from ..core.index import AnalysisError, FuncInfo
-from .common import (BASE_OUTLINE, OTF_OUTLINE, TTF_OUTLINE, T, attr_stores, calls_named, conds,
+from .common import (BASE_OUTLINE, OTF_OUTLINE, TTF_OUTLINE, T, attr_stores, calls_named, conds, every_origin,
                      entry_funcs, is_self_attr, key, membership_guard, name_is, need, same_as,
                      subscript_stores, where)
 
@@ -23,14 +23,16 @@ def run(prog, chk):
         "makeOfficialGlyphOrder: .notdef first, guarded single insertion, sorted tail (R03.4, shape-bound)",
         "BMP / non-BMP split uses one bound with complementary operators; 32-bit tables include BMP (R03.5)",
         "UVS default vs non-default decided by equality with the base mapping (R03.6)",
+        "every declared code point of every glyph of the order reaches the mapping (no filtering: U+0000 is a code point); OS/2 indices only exclude None (R03.7)",
     ]
     chk.not_decided += ["the ordering as a function of arbitrary inputs", "cmap binary encoding (fontTools)"]
-    r031(prog, chk)
-    r031e(prog, chk)
-    r032(prog, chk)
-    r033(prog, chk)
-    r034(prog, chk)
-    r035(prog, chk)
+    chk.guard(r031, prog, chk)
+    chk.guard(r031e, prog, chk)
+    chk.guard(r032, prog, chk)
+    chk.guard(r033, prog, chk)
+    chk.guard(r034, prog, chk)
+    chk.guard(r035, prog, chk)
+    chk.guard(r037, prog, chk)
 
 
 # ----------------------------------------------------------------------------- R03.1
@@ -573,7 +575,44 @@ def r036(prog, chk, cm, only_when_no_hi):
 # ------------------------------------------------------------------- self-validation corpus
 from ..selftest import M  # noqa: E402
 
+# ----------------------------------------------------------------------------- R03.7
+def r037(prog, chk):
+    """Every declared code point of every glyph of the order reaches the mapping: the
+    inner loop runs over glyph.unicodes as it is (no filter: U+0000 is a code point),
+    the outer loop over the whole glyph order, and the only way out is the duplicate raise."""
+    fi = prog.ix.get_func("ufo2ft.util:makeUnicodeToGlyphNameMapping")
+    m = _returned_name(fi)
+    stores = [(st, t, v) for st, t, v in subscript_stores(fi) if isinstance(t.value, ast.Name) and t.value.id == m]
+    need(len(stores) == 1, f"cannot interpret {fi.short}")
+    st, t, v = stores[0]
+    loops = [a for a in prog.ix.ancestors(st) if isinstance(a, ast.For)]
+    need(len(loops) == 2, f"cannot interpret {fi.short}: glyph loop / code point loop")
+    inner, outer = loops
+    ok, bad = every_origin(prog, fi, inner.iter, lambda x, f: isinstance(x, ast.Attribute) and x.attr == "unicodes", allow_const=False)
+    okv = T(t.slice) in A.target_names(inner.target)
+    chk.ob("R03.7", key(fi, "all-code-points"), ok and okv, where(fi, inner), detail=f"for uni in {T(inner.iter)}",
+           message=f"the code points of a glyph are filtered / transformed before they are mapped ({bad}): a declared code point (e.g. U+0000) can be left out of the cmap")
+    skips = [x for x in ast.walk(outer) if isinstance(x, (ast.Continue, ast.Break))]
+    gname = A.target_names(outer.target)[0]
+    okg = not skips and T(v) == gname
+    ps = fi.params()
+    oko = isinstance(outer.iter, ast.Name) and outer.iter.id == ps[1]
+    chk.ob("R03.7", key(fi, "all-glyphs"), okg and oko, where(fi, outer), detail=f"for {gname} in {T(outer.iter)}: no continue / break",
+           message="a glyph of the order can be skipped when the code-point mapping is built (or a code point is mapped to another glyph's name)")
+    # consumers do not drop code points by truthiness either
+    o = prog.ix.get_method(BASE_OUTLINE, "setupTable_OS2", own=True)
+    u = [s_ for s_ in A.stmts_of(o.node) if isinstance(s_, ast.Assign) and isinstance(s_.value, ast.ListComp) and "unicodeToGlyphNameMapping" in T(s_.value)]
+    oku = len(u) == 1 and len(u[0].value.generators[0].ifs) == 1 and isinstance(u[0].value.generators[0].ifs[0], ast.Compare) and isinstance(u[0].value.generators[0].ifs[0].ops[0], ast.IsNot)
+    chk.ob("R03.7", key(o, "os2-code-points"), oku, where(o), detail=T(u[0].value, 80) if u else "", nontrivial=False,
+           message="OS/2 first/last character index: code points are filtered by something other than `is not None`")
+    chk.minimum("R03.7", 3)
+
+
 MUTANTS = [
+    M("falsy code points (U+0000) dropped from the mapping (seeded C03d)", "ufo2ft/util.py", "makeUnicodeToGlyphNameMapping",
+      "unicodes = glyph.unicodes", "unicodes = filter(None, glyph.unicodes)", rule="R03.7"),
+    M("only the first code point of a glyph is mapped", "ufo2ft/util.py", "makeUnicodeToGlyphNameMapping",
+      "unicodes = glyph.unicodes", "unicodes = glyph.unicodes[:1]", rule="R03.7"),
     M("requested order copied with a comprehension: repeated names emitted twice (seeded C03c)", "ufo2ft/util.py", "makeOfficialGlyphOrder",
       "for name in glyphOrder:\n    if name not in names:\n        continue\n    names.remove(name)\n    order.append(name)\norder.extend(sorted(names))",
       "order.extend((name for name in glyphOrder if name in names))\norder.extend(sorted(names.difference(order)))", rule="R03.4"),
